@@ -96,11 +96,11 @@ func main() {
 	}
 	cfgs := configs()
 	sizes := []int{0, 1, 63, 64, 65, 127, 128, 129, 200}
-	depth := 3
-	maxOff := 320
+	depth := 4
+	maxOff := 1100
 	if run.Thorough() {
-		depth = 4
-		maxOff = 1100
+		depth = 5
+		maxOff = 4200
 	}
 	run.Set("rule", "configs = 3 seeds x customizer lengths 0..12 (+trailing-zero variants); (a) all read-size sequences up to depth over {0,1,63,64,65,127,128,129,200} vs reference keystream; (b) every byte offset 0..maxOff as Store/Restore point reached by one read and by split reads, continuation compared with reference and original in lockstep incl. UintN/Permutation/Samples; (c) operation histories depth<=3 over Read/UintN/Permutation/Store+Restore against a stream-offset model; (d) all invalid seed/customizer/state lengths; (e) all histories up to depth 5 (thorough 6) over {read 1/64/65/130, store-and-keep, uintn} with every state returned by Store() held as returned: unchanged after every later step, each restores at its own offset, and overwriting all caller-owned buffers (constructor inputs, returned states, the buffer handed to Restore) disturbs no generator. A case is non-trivial/distinct by (config, sequence) or (config, offset, split).")
 	run.Set("read_sizes", sizes)
@@ -262,9 +262,9 @@ func main() {
 		n    uint64
 	}
 	alpha := []op{{"read", 1}, {"read", 64}, {"read", 65}, {"uintn", 3}, {"uintn", 256}, {"uintn", 1<<32 + 1}, {"perm", 3}, {"storerestore", 0}}
-	hd := 3
+	hd := 4
 	if run.Thorough() {
-		hd = 4
+		hd = 5
 	}
 	var hist [][]int
 	var hg func(cur []int)
